@@ -414,12 +414,26 @@ func Run(j *job.Job, s *job.Sink) {
 		t := gen(r, top, 0)
 		var b strings.Builder
 		t.print(&b, "")
+		// one text in eight holds a second top-level statement (a module, a submodule, now
+		// and then something else): every statement of a source is built, and one that is
+		// refused makes the load fail
+		var t2 *stmt
+		if r.Intn(8) == 0 {
+			top2 := []string{"module", "module", "submodule", "container", "leaf", "bogus"}[r.Intn(6)]
+			t2 = gen(r, top2, 0)
+			t2.arg = "second" + t2.arg
+			t2.print(&b, "")
+			s.Count("texts_with_two_top_level_statements", 1)
+		}
 		text := b.String()
 		if c%64 == 0 {
 			s.Current(c, map[string]string{"text": text})
 		}
 		s.Count("trees", 1)
 		want := mustReject(t, true)
+		if want == "" && t2 != nil {
+			want = mustReject(t2, true)
+		}
 		var err error
 		panicked := ""
 		ms := yang.NewModules()
@@ -459,13 +473,20 @@ func Run(j *job.Job, s *job.Sink) {
 				s.Count("nontrivial", 1)
 			}
 			nodes := 0
+			walked := map[*yang.Module]bool{}
 			for _, mm := range []map[string]*yang.Module{ms.Modules, ms.SubModules} {
 				for _, m := range mm {
+					if walked[m] {
+						continue
+					}
+					walked[m] = true
 					if cl, d := Walk(m, m.Statement(), nil, true, &nodes); cl != "" {
 						viol(cl, d, facts)
 					}
-					break
 				}
+			}
+			if want2 := 1 + map[bool]int{true: 1}[t2 != nil]; len(walked) != want2 {
+				viol("dropped-or-duplicated", fmt.Sprintf("the text has %d top-level statements, the set holds %d modules", want2, len(walked)), facts)
 			}
 			s.Count("nodes_paired", int64(nodes))
 			if c%5000 == 0 {
